@@ -1,6 +1,6 @@
 """Rule templates shared by several properties (W3, W4, FairGate, FIFO ends, scans)."""
 from engine import fmt_loc, fmt_val, OPTION, POLL, NONE, PANIC, some
-from rl import (fields_of, is_tok, loc_endswith, path_cond, trace_summary, where, ret_variant, NODE_ADTS)
+from rl import (fields_of, is_tok, loc_endswith, path_cond, trace_summary, where, ret_variant, NODE_ADTS, const_of)
 from lib import CheckerError
 
 
@@ -46,6 +46,17 @@ def own_node_roots(F, fn):
 
 
 # ---------------------------------------------------------------------- W3
+def _in_local_aggregate(path, vals):
+    """does a local variable's field / element (not the variable itself) hold one of vals at the end?"""
+    for loc, v in path.store.items():
+        if loc[0][0] == 'L' and len(loc) > 1 and any(contains(v, x) for x in vals):
+            return True
+        if loc[0][0] == 'L' and len(loc) == 1 and isinstance(v, tuple) and v and v[0] == 'agg' and v[1] != OPTION \
+                and any(contains(v, x) for x in vals):
+            return True
+    return False
+
+
 def w3_waker_use(R, E, F, fn, paths, rule, strict):
     """every waker taken out of a node (`task.take()`) is woken on that path, or (non-strict: state
     level) handed to the caller through the return value; never dropped while possibly Some"""
@@ -70,6 +81,21 @@ def w3_waker_use(R, E, F, fn, paths, rule, strict):
                      {'function': fn['path'], 'taken_from': fmt_loc(e['loc']),
                       'sink': 'Waker::wake' if woken else 'return value'})
             else:
+                # not woken: dropped on the spot (violation) or moved somewhere this rule cannot follow?
+                direct = [d for d in path.events if d['k'] == 'drop' and (
+                    d['val'] in (x, inner) or (d['val'][0] == 'agg' and d['val'][1] == OPTION
+                                               and contains(d['val'], inner)))]
+                esc = None if direct else waker_escapes(path, (x, inner))
+                if esc is not None and not strict and esc['k'] == 'write':
+                    R.ok(rule, '%s|%s|handed to the caller through an out-parameter' % (fn['path'], path_cond(E, path)),
+                         {'function': fn['path'], 'taken_from': fmt_loc(e['loc']), 'sink': 'out-parameter'})
+                    continue
+                if esc is not None or (not direct and _in_local_aggregate(path, (x, inner))):
+                    raise CheckerError(
+                        'cannot judge %s: a waker taken from %s is neither woken nor dropped on the path but moved '
+                        'into a collection / foreign call (%s); this rule does not follow a collection of wakers to '
+                        'the place where it is woken' % (fn['path'], fmt_loc(e['loc']),
+                                                         where(F, esc) if esc else 'local aggregate'))
                 R.fail(rule, [fn['path'], 'taken-waker-dropped', fmt_loc(e['loc']).split('@')[0]],
                        '%s: a waker taken from %s is neither woken nor returned on the path [%s]' % (
                            fn['path'], fmt_loc(e['loc']), path_cond(E, path)),
@@ -350,3 +376,119 @@ def constructor_state(R, E, F, state_adt, expect, rule):
                        '%s initialises `%s` with %s (expected %s): the primitive does not start in the state the '
                        'invariants assume' % (fn['path'], field, _fv(got) if got else None, want),
                        '%s:%s' % (fn['file'], fn['line']))
+
+
+# ---------------------------------------------------------------------- hand-off of a taken waker
+def waker_escapes(path, vals):
+    """is one of the abstract values `vals` (a waker taken out of a node) stored into memory the caller can
+    see (a `&mut` out-parameter, not the state itself or a queue token) or passed to an opaque callee?  Then the
+    wake-up is handed off and a rule that only recognises waking on the spot cannot judge the path."""
+    for e in path.events:
+        if e['k'] == 'write' and any(contains(e['val'], v) for v in vals):
+            root = e['loc'][0]
+            if root[0] == 'P' and root[1] != 'self':
+                return e
+            if root[0] == 'D':
+                return e
+        if e['k'] == 'call' and e.get('mode') == 'opaque' and e.get('name') not in ('wake', 'wake_by_ref', 'drop',
+                                                                                  'drop_in_place'):
+            if any(contains(a, v) for a in e.get('args', ()) for v in vals):
+                return e
+    return None
+
+
+# ---------------------------------------------------------------------- fair hand-over invariants
+def _own_entered(path, owns, variant):
+    return any(path.facts.get(('discr', ('init', r + ('data', 'state')))) == ('eq', variant) for r in owns)
+
+
+def _notified_marks(path):
+    return [e for e in path.events if e['k'] == 'write' and e['loc'][0][0] == 'tok'
+            and loc_endswith(e['loc'], 'state') and e['val'][0] == 'agg' and e['val'][2] == 'Notified']
+
+
+def mutex_fair_J(E, F, methods, run):
+    """J(mutex): fair & some node Notified => !is_locked.  Notification half of its induction: a waiter is marked
+    Notified, on a path that can be fair, only when the path ends with the mutex known unlocked - is_locked written
+    false, or untouched while it was observed false or the own node entered as the notified one (J at entry).
+    (The other half - is_locked set in fair mode only by the notified head or with an empty queue - is C04.R1.)
+    returns (instances, offenders[(method, path, event)])"""
+    fair_v = ('init', (('P', 'self'), 'is_fair'))
+    locked_v = ('init', (('P', 'self'), 'is_locked'))
+    n = 0
+    bad = []
+    good = []
+    for m in methods:
+        owns = own_node_roots(F, m)
+        for path in run(m['path']):
+            if path.exit != 'return' or const_of(E, path.facts, fair_v) == 0:
+                continue
+            marks = _notified_marks(path)
+            if not marks:
+                continue
+            n += 1
+            lw = [e for e in path.events if e['k'] == 'write' and e['loc'][:1] == (('P', 'self'),)
+                  and loc_endswith(e['loc'], 'is_locked')]
+            if lw:
+                ok = const_of(E, path.facts, lw[-1]['val']) == 0
+                why = 'is_locked written false on the path'
+            elif _own_entered(path, owns, 'Notified'):
+                ok, why = True, 'own node entered as the notified one and is_locked is untouched'
+            else:
+                ok, why = const_of(E, path.facts, locked_v) == 0, 'is_locked observed false'
+            (good if ok else bad).append((m, path, marks[0], why))
+    return n, good, bad
+
+
+def sem_fair_J(E, F, wk, run):
+    """J(semaphore): fair & some node Notified => permits >= its required_permits.  Notification half: the walk marks
+    a waiter Notified only under `available >= required` with available derived from self.permits (same test as
+    C06.R5); the other half (permits shrink in fair mode only through the notified head) is C07.R1."""
+    n = 0
+    bad = []
+    for path in run(wk['path']):
+        if path.exit != 'return' or const_of(E, path.facts, ('init', (('P', 'self'), 'is_fair'))) == 0:
+            continue
+        for e in _notified_marks(path):
+            n += 1
+            tok = e['loc'][:1]
+            req = ('init', tok + ('data', 'required_permits'))
+            fits = False
+            for k in path.facts:
+                if isinstance(k, tuple) and k and k[0] == 'bin' and k[1] in ('Lt', 'Ge', 'Le', 'Gt'):
+                    for avail in (k[2], k[3]):
+                        if contains(avail, ('init', (('P', 'self'), 'permits'))) and \
+                                cmp_fact(E, path.facts, 'Ge', avail, req) == 1:
+                            fits = True
+            if not fits:
+                bad.append((wk, path, e))
+    return n, bad
+
+
+# ---------------------------------------------------------------------- fair: no re-queue
+def fair_no_requeue(R, E, F, m, paths, owns, rule, what, excluded=None):
+    """a queued waiter of a fair primitive never changes its place: on a path that can be fair, the own node is
+    put into the queue only when it entered the transition in state New.  `excluded(path, root)` may name the
+    invariant that makes the path infeasible (checked by the caller).  returns the number of enqueue instances"""
+    n = 0
+    for path in paths:
+        if path.exit != 'return' or const_of(E, path.facts, ('init', (('P', 'self'), 'is_fair'))) == 0:
+            continue
+        for e in path.events:
+            if not (e['k'] == 'qop' and e['op'] in ('add_front', 'add_back', 'insert') and e.get('node')
+                    and e['node'][:1] in owns):
+                continue
+            n += 1
+            root = e['node'][:1]
+            k0 = path.facts.get(('discr', ('init', root + ('data', 'state'))))
+            why = excluded(path, root) if excluded else None
+            if k0 == ('eq', 'New'):
+                R.ok(rule, '%s|enqueue of a New node|%s' % (m['path'], path_cond(E, path)))
+            elif why:
+                R.ok(rule, '%s|re-queue path excluded: %s|%s' % (m['path'], why, path_cond(E, path)))
+            else:
+                R.fail(rule, [m['path'], 'fair-requeue', path_cond(E, path)],
+                       '%s puts its own node into the queue on a path that can be a fair %s and on which the node '
+                       'did not enter in state New: a waiter that was already queued moves behind later arrivals '
+                       '[%s]' % (m['path'], what, path_cond(E, path)), where(F, e), {'trace': trace_summary(path)})
+    return n
